@@ -413,13 +413,17 @@ DOC_CHAINS = [
     [["REQ"], ["OPT"]],                                          # declared conflict
     [["DATE"]],
     [["REQ"], ["TYPE", "LIST"], ["MIN_LENGTH", 1]],
+    [["REGEX", "^\\d{3}$"]],                                     # patterns with backslash escapes, through the schema-document route too
+    [["REQ"], ["REGEX", "^[a-z]+\\.[a-z]+$"]],
+    [["OPT"], ["REGEX", "^\\w+$"], ["MAX_LENGTH", 4]],
 ]
 DOC_CHAIN_TEXT = [None, "REQ", "OPT", "REQ∧ENUM[ACTIVE,ACTIVATING,DONE]", "OPT∧RANGE[1,5]", "REQ∧TYPE[STRING]∧MAX_LENGTH[3]", "CONST[X]", "REQ∧OPT",
-                  "DATE", "REQ∧TYPE[LIST]∧MIN_LENGTH[1]"]
+                  "DATE", "REQ∧TYPE[LIST]∧MIN_LENGTH[1]", 'REGEX["^\\d{3}$"]', 'REQ∧REGEX["^[a-z]+\\.[a-z]+$"]', 'OPT∧REGEX["^\\w+$"]∧MAX_LENGTH[4]']
 ABSENT = "<absent>"
 # field states: absent | one assignment | two assignments (the last one wins)
 DOC_STATES = [ABSENT, [None], [CL.S("ACTIVE")], [CL.S("ACT")], [CL.S("abcd")], [CL.I(3)], [CL.I(9)], [CL.S("X")], [CL.L(CL.S("a"))], [CL.L()],
-              [CL.S("2024-02-30")], [CL.S("2024-01-15")], [CL.S("")], [CL.S("ACTIVE"), CL.I(9)], [CL.I(9), CL.S("ACTIVE")], [CL.S("nan")]]
+              [CL.S("2024-02-30")], [CL.S("2024-01-15")], [CL.S("")], [CL.S("ACTIVE"), CL.I(9)], [CL.I(9), CL.S("ACTIVE")], [CL.S("nan")],
+              [CL.S("123")], [CL.S("ddd")], [CL.S("a.b")], [CL.S("aXb")], [CL.S("ab_1")]]
 DOC_POLICIES = ["REJECT", "WARN", "IGNORE", "BOGUS", None]
 DOC_EXTRAS = [[], ["ZED"], ["ZED", "ALPHA"], ["ALPHA", "ALPHA"]]
 FIELD_NAMES = ["B_FIELD", "A_FIELD", "C_FIELD"]
@@ -469,8 +473,10 @@ def doc_build(chains, policy, states, extras):
         children.append(Assignment(key=k, value=ast_val(e)))
         mchildren.append([k, e])
     doc = Document(name="DOC", sections=[Block(key=SECTION, children=children)])
+    pats = [c[1] for ch in chains if ch for c in ch if c[0] == "REGEX"]
+    rows, ok = CL.re_tables(pats, [CL.dec_val(e) for _k, e in doc_seq(states, extras)]) if pats else ([], [])
     req = {"op": "validate_section", "key": SECTION, "children": mchildren, "policy": policy if policy is not None else "REJECT",
-           "fields": mfields, "env": {"re": [], "reok": [], "fr": []}}
+           "fields": mfields, "env": {"re": rows, "reok": ok, "fr": []}}
     return doc, {SECTION: schema}, req
 
 
@@ -652,7 +658,16 @@ def tool_worker(task):
             name, faithful = schema_cache[skey]
             if not faithful:
                 bump("tool:schema_text_not_faithful")
-                continue
+                # the chain the schema-document route hands to the validator is not the chain written in the schema text
+                if len(out["disagree"]) < MAX_RECORDED:
+                    try:
+                        sd = load_schema_by_name(name)
+                        got = [(k, (fd.pattern.constraints.to_string() if fd.pattern and fd.pattern.constraints else None)) for k, fd in sd.fields.items()]
+                    except Exception as e:
+                        got = "!" + type(e).__name__
+                    out["disagree"].append({"case": case, "model": [DOC_CHAIN_TEXT[i] for i in cidx], "impl": got,
+                                            "view": "constraint chains of a schema document as read by load_schema_by_name vs the chains written (ConstraintChain objects)"})
+                # no `continue`: the instance is still judged, against the chains as WRITTEN (that is what the schema's author declared)
             # the instance document
             lines, ok, seq = ["===DOC===", f"{name}:"], True, doc_seq(states, extras)
             for k, e in seq:
